@@ -131,4 +131,73 @@ class Filters(Component):
         ctx.label("n_jobs>1", case["n_jobs"] != 1)
 
 
-COMPONENTS = [Joins(), Filters()]
+GRID_ENTRIES = ["jaccard_join", "cosine_join", "overlap_coefficient_join", "SizeFilter", "PrefixFilter",
+                "PositionFilter", "SuffixFilter"]
+
+
+class Grid(Component):
+    """Every job must see the left table's empty rows and no right row may fall between
+    chunks: dense (right rows, n_jobs) grid where every third right row has no tokens."""
+    name = "grid"
+    kind = "enum"
+    exhaustive = True
+    rule = "every (entry point, right rows <= R, n_jobs <= rows+2) cell"
+
+    def bounds(self, tier):
+        return {"rows": 32 if tier == "quick" else 64, "entries": GRID_ENTRIES}
+
+    def shards(self, tier):
+        return 16
+
+    def cases(self, tier):
+        for e in GRID_ENTRIES:
+            for r in range(1, self.bounds(tier)["rows"] + 1):
+                yield {"entry": e, "rows": r}
+
+    def check(self, case, ctx):
+        import pandas as pd
+        from ..env import ssj
+        e, r = case["entry"], case["rows"]
+        lv = ["", "a b", " ", "c"]
+        rv = ["" if i % 3 == 0 else ("  " if i % 7 == 5 else "a b x%d" % i) for i in range(r)]
+        L = pd.DataFrame({"id": [0, 1, 2, 3], "v": pd.Series(lv, dtype=object)})
+        R = pd.DataFrame({"id": list(range(100, 100 + r)), "v": pd.Series(rv, dtype=object)})
+        l_empty = [0, 2]
+        r_empty = [100 + i for i, v in enumerate(rv) if not v.strip()]
+        want = set((a, b) for a in l_empty for b in r_empty)
+        for ae in (True, False):
+            for k in [1] + list(range(2, r + 3)):
+                tok = mk_tok({"kind": "ws", "return_set": True})
+                with calls.backend(k):
+                    if e.endswith("_join"):
+                        df = ctx.lib(getattr(ssj, e), L, R, "id", "id", "v", "v", tok, 0.9, ">=",
+                                     ae, False, None, None, "l_", "r_", True, k, False)
+                    else:
+                        f = getattr(ssj, e)(tok, "JACCARD", 0.9, ae)
+                        df = ctx.lib(f.filter_tables, L, R, "id", "id", "v", "v", n_jobs=k,
+                                     show_progress=False)
+                if df is None:
+                    continue
+                import collections
+                got = collections.Counter(zip(df["l_id"].tolist(), df["r_id"].tolist()))
+                for p_ in want:
+                    if ae and got[p_] != 1:
+                        ctx.violation("entry=%s,kind=empty-pair-not-admitted" % e,
+                                      "%s allow_empty=True, %d right rows, n_jobs=%d: both-empty "
+                                      "pair %r occurs %d times, expected once"
+                                      % (e, r, k, p_, got[p_]))
+                    if not ae and got[p_] != 0:
+                        ctx.violation("entry=%s,kind=empty-pair-admitted" % e,
+                                      "%s allow_empty=False, %d right rows, n_jobs=%d: both-empty "
+                                      "pair %r is in the output" % (e, r, k, p_))
+                for (a, b), c in got.items():
+                    one_empty = (a in l_empty) != (b in r_empty)
+                    if one_empty and e.endswith("_join"):
+                        ctx.violation("entry=%s,kind=one-empty-pair-returned" % e,
+                                      "%s, %d right rows, n_jobs=%d returned (%r, %r) with exactly "
+                                      "one empty side" % (e, r, k, a, b))
+        ctx.nontrivial(bool(want))
+        ctx.label("grid:" + e)
+
+
+COMPONENTS = [Joins(), Filters(), Grid()]
